@@ -1,7 +1,7 @@
 (* Executable model of apischema/deserialization: types, method trees (methods.py), compilation (__init__.py).
    No proofs here.  One constructor of `meth` per method class; `exec` mirrors each `deserialize` body. *)
 From Coq Require Import List String ZArith Bool Arith Ascii.
-From AV Require Import Core.Json Core.Errors Core.Text Gen.Tables.
+From AV Require Import Core.Json Core.Errors Core.Text Gen.Tables Small.Ordering.
 Import ListNotations.
 Open Scope string_scope.
 
@@ -163,9 +163,7 @@ Inductive ty :=
 
 Inductive okind := KData | KNamedTuple | KTypedDict.
 
-(* order(...) metadata (apischema/ordering.py) *)
-Inductive ordering := OOrder (z : Z) | OAfter (x : string) | OBefore (x : string).
-
+(* order(...) metadata: `ordering` comes from Small/Ordering.v (model of apischema/ordering.py) *)
 (* skip(serialization_if=...) predicates used by the generated classes *)
 Inductive skipif := SkipNever | SkipIfNone | SkipIfZero | SkipIfEmptyStr.
 
